@@ -29,7 +29,7 @@ def run_one(ob, tier, logdir):
     d = json.load(open(out))
     r.update({"solver_s": d.get("solver_s", 0.0), "queries": d.get("queries", 0)})
     r["report"] = {"paths": d.get("paths"), "cases": d.get("cases"), "smt_queries": d.get("queries"), "functions_executed": d.get("functions", []),
-                   "std_models_used": d.get("models", []), "translator_validated_inputs": d.get("translator_validated", 0), "mir": d.get("mir")}
+                   "std_models_used": d.get("models", []), "translator_validated_inputs": d.get("translator_validated", 0), "mir": d.get("mir"), "second_solver": d.get("second_solver")}
     r["samples"] = [dict({"obligation": ob["name"]}, **s) if isinstance(s, dict) else {"obligation": ob["name"], "sample": s} for s in d.get("samples", [])]
     viol = d.get("violations", [])
     und = d.get("undecided", [])
